@@ -29,7 +29,9 @@ UserMaps ==
      << <<"xsi", "a">> >>,                            \* 9 xsi remapped
      << <<"p", "">>, <<"u", "c">> >>,                 \* 10 empty URI, unused entry
      << <<"ns2", "c">>, <<"ns1", "b">> >>,            \* 11 generated-looking prefixes, out of order
-     << <<NONE, XSI>> >>                              \* 12 default = xsi namespace
+     << <<NONE, XSI>> >>,                             \* 12 default = xsi namespace
+     << <<"p", "a">>, <<"", "a">> >>,                 \* 13 a prefix, THEN the default spelled "" for the same URI
+     << <<"", "b">>, <<"q", "b">>, <<"p", "a">> >>    \* 14 the default spelled "" first, then a prefix for the same URI
   >>
 
 ElemNames == {<<NoNs, "e">>, <<"a", "e">>, <<"b", "e">>}
